@@ -26,6 +26,20 @@ func inspect(root ast.Node, f func(ast.Node) bool) {
 	inspectDepth(root, f, 0, nil)
 }
 
+// synthLit presents a declared function as the function literal it replaced: a new helper used
+// as a function value is traversed as `func(params) results { body }` standing at that use, so
+// that rules which collect or skip nested literals treat both spellings alike.
+var synthLits = map[*ast.FuncDecl]*ast.FuncLit{}
+
+func synthLit(fi *prog.FuncInfo) *ast.FuncLit {
+	if l, ok := synthLits[fi.Decl]; ok {
+		return l
+	}
+	l := &ast.FuncLit{Type: fi.Decl.Type, Body: fi.Decl.Body}
+	synthLits[fi.Decl] = l
+	return l
+}
+
 func inspectDepth(root ast.Node, f func(ast.Node) bool, depth int, stack []*prog.FuncInfo) {
 	if root == nil {
 		return
@@ -37,14 +51,44 @@ func inspectDepth(root ast.Node, f func(ast.Node) bool, depth int, stack []*prog
 			rootPkg = p.PkgOfFile(file)
 		}
 	}
+	callFun := map[*ast.Ident]bool{} // identifiers in call position (their callee is followed at the call)
 	ast.Inspect(root, func(n ast.Node) bool {
 		ok := f(n)
 		if !ok || p == nil || depth >= 3 {
 			return ok
 		}
+		if id, isID := n.(*ast.Ident); isID && !callFun[id] {
+			// a new helper used as a function value (db.tasks.Enqueue(q, db.flushSealed)): its body
+			// stands where a literal stood before the extraction
+			info := p.InfoAt(id.Pos())
+			if info == nil {
+				return ok
+			}
+			fn, isFn := info.Uses[id].(*types.Func)
+			if !isFn {
+				return ok
+			}
+			fi := p.FuncInfoOf(fn)
+			if !isNewHelper(p, fi) || interface{}(fi.Pkg) != rootPkg {
+				return ok
+			}
+			for _, s := range stack {
+				if s == fi {
+					return ok
+				}
+			}
+			inspectDepth(synthLit(fi), f, depth+1, append(stack, fi))
+			return ok
+		}
 		call, isCall := n.(*ast.CallExpr)
 		if !isCall {
 			return ok
+		}
+		switch fx := ast.Unparen(call.Fun).(type) {
+		case *ast.Ident:
+			callFun[fx] = true
+		case *ast.SelectorExpr:
+			callFun[fx.Sel] = true
 		}
 		info := p.InfoAt(call.Pos())
 		if info == nil {
@@ -83,6 +127,9 @@ func init() {
 			}
 			return nil
 		}
+	}
+	pathsim.PredicateBody = func(info *types.Info, call *ast.CallExpr) ast.Expr {
+		return predicateBody(info, call)
 	}
 	pathsim.BoolLocalDef = func(info *types.Info, id *ast.Ident) ast.Expr {
 		obj, ok := info.Uses[id].(*types.Var)
@@ -344,4 +391,83 @@ func helperReturnExpr(info *types.Info, call *ast.CallExpr) ast.Expr {
 		return nil
 	}
 	return ret.Results[0]
+}
+
+// predicateBody returns the boolean expression a same-package function returns when its body is
+// exactly `return <expr>` (any function, baseline or new: the body is read from the current tree).
+func predicateBody(info *types.Info, call *ast.CallExpr) ast.Expr {
+	p := curProg
+	if p == nil {
+		return nil
+	}
+	fi := p.FuncInfoOf(p.CalleeFunc(info, call))
+	if fi == nil || fi.Decl == nil || fi.Decl.Body == nil || fi.Pkg.TypesInfo != info || len(fi.Decl.Body.List) != 1 {
+		return nil
+	}
+	ret, ok := fi.Decl.Body.List[0].(*ast.ReturnStmt)
+	if !ok || len(ret.Results) != 1 {
+		return nil
+	}
+	if b, ok := info.TypeOf(ret.Results[0]).Underlying().(*types.Basic); !ok || b.Info()&types.IsBoolean == 0 {
+		return nil
+	}
+	return ret.Results[0]
+}
+
+// calleeBody returns the body that a call runs in place when the callee is an immediately
+// invoked literal or an extracted helper (a function that is not in the baseline list).
+func calleeBody(p *prog.Prog, info *types.Info, call *ast.CallExpr) *ast.BlockStmt {
+	if lit, ok := ast.Unparen(call.Fun).(*ast.FuncLit); ok {
+		return lit.Body
+	}
+	if hf := p.FuncInfoOf(p.CalleeFunc(info, call)); isNewHelper(p, hf) {
+		return hf.Decl.Body
+	}
+	return nil
+}
+
+// derefParam maps an identifier naming a parameter of an extracted helper to the argument at the
+// helper's only call site (nil when e is anything else).
+func derefParam(info *types.Info, e ast.Expr) ast.Expr {
+	id, ok := ast.Unparen(e).(*ast.Ident)
+	if !ok {
+		return nil
+	}
+	v, ok := info.Uses[id].(*types.Var)
+	if !ok {
+		return nil
+	}
+	sc := curProg.ScopeAt(id.Pos())
+	if sc == nil || sc.Fn == nil || sc.Fn.Decl == nil || sc.Fn.Decl.Body == nil {
+		return nil
+	}
+	if body := sc.Fn.Decl.Body; v.Pos() >= body.Pos() && v.Pos() <= body.End() {
+		return nil // a local: handled by the caller
+	}
+	return derefStep(info, id)
+}
+
+// unwrapLit: a literal whose whole body is `return helper(args)` with helper an extracted
+// function stands for that helper's body (presented as a literal); repeated up to three times.
+func unwrapLit(p *prog.Prog, info *types.Info, lit *ast.FuncLit) *ast.FuncLit {
+	for i := 0; i < 3 && lit != nil && lit.Body != nil && len(lit.Body.List) == 1; i++ {
+		var call *ast.CallExpr
+		switch st := lit.Body.List[0].(type) {
+		case *ast.ReturnStmt:
+			if len(st.Results) == 1 {
+				call, _ = ast.Unparen(st.Results[0]).(*ast.CallExpr)
+			}
+		case *ast.ExprStmt:
+			call, _ = ast.Unparen(st.X).(*ast.CallExpr)
+		}
+		if call == nil {
+			break
+		}
+		hf := p.FuncInfoOf(p.CalleeFunc(info, call))
+		if !isNewHelper(p, hf) {
+			break
+		}
+		lit = synthLit(hf)
+	}
+	return lit
 }
